@@ -19,7 +19,8 @@ def run(rep, kf, tier, seed):
     cd.discharge(rep, kf, "C01", tier, seed)
     import contracts.removal as crm
     import contracts.registration as creg
-    engine_b.discharge(rep, kf, [creg.model_build_contract()], "C01", tier, seed)
+    engine_b.discharge(rep, kf, [creg.model_build_contract(), creg.import_filter_contract("relative"),
+                                 creg.import_filter_contract("lazy")], "C01", tier, seed)
     import contracts.param_conflicts as pcf
     engine_b.discharge(rep, kf, [crm.propagate_contract(), pcf.conflicts_contract()], "C01", tier, seed)
     # O3/O4/O7: declaration layout, import closure, metadata, on the schematic family
